@@ -69,7 +69,7 @@ ASSUMPTIONS = [
     'reference integrator vf/simshim.py stands in for myokit.Simulation']
 REQUIRED = ['kind:em', 'kind:mech', 'kind:sbml', 'kind:pop', 'kind:ll', 'kind:pred', 'kind:poppred', 'kind:ctrl',
             'kind:ctrlpop', 'op:fix', 'op:refix', 'op:release', 'op:mixed', 'op:release_all', 'op:bogus', 'op:rename',
-            'op:copy', 'op:sens', 'op:nids', 'op:set_data', 'all_fixed', 'late_n_ids', 'exhaustive', 'sbml:admin',
+            'op:copy', 'op:sens', 'op:nids', 'op:dims', 'op:set_data', 'all_fixed', 'late_n_ids', 'exhaustive', 'sbml:admin',
             'fix_arg:one_shot_iterable',
             'pop:bare', 'pop:pooled', 'pop:hetero', 'pop:cov', 'sens_while_fixed']
 
@@ -236,7 +236,7 @@ MENU = {
     'em': ['rename', 'rename'],
     'mech': ['rename', 'copy', 'copy', 'sens', 'sens', 'sens'],
     'sbml': ['rename', 'copy', 'sens', 'sens', 'sens'],
-    'pop': ['rename', 'rename', 'nids'],
+    'pop': ['rename', 'rename', 'nids', 'dims'],
     'll': [], 'pred': [], 'poppred': [],
     'ctrl': ['set_data'], 'ctrlpop': ['set_data', 'set_data']}
 BASE_MENU = ['fix'] * 4 + ['refix'] * 3 + ['release'] * 3 + ['mixed'] * 2 + ['release_all', 'eval', 'eval', 'bogus']
@@ -330,6 +330,8 @@ def _draw_ops(draw, kind, n, pool, n_pts, max_len):
             ops.append(dict(op='sens', on=sens))
         elif o == 'nids':
             ops.append(dict(op='nids'))
+        elif o == 'dims':
+            ops.append(dict(op='dims'))
         elif o == 'set_data':
             ops.append(dict(op='set_data'))
         fixed = _step_model(kind, fixed, ops[-1], n)
@@ -439,6 +441,8 @@ def extra_cases(tier):
         for i in range(n):
             out.append(dict(kind='pop', obj=obj, n=n, points=points, exhaustive=True, every=True,
                             ops=[dict(op='fix', vals={str(i): _val(i)}), dict(op='nids'), dict(op='release_all', how='fixed')]))
+            out.append(dict(kind='pop', obj=obj, n=n, points=points, exhaustive=True, every=True,
+                            ops=[dict(op='fix', vals={str(i): _val(i)}), dict(op='dims'), dict(op='release_all', how='fixed')]))
     return out
 
 
@@ -1312,6 +1316,19 @@ def check(case):
                         case.equal(int(cur.obj.n_parameters()), len(wide) - len(fixed_names),
                                    'op %d: n_parameters after set_n_ids(%d)' % (step, ad.n_ids + 1))
                     cur.obj.set_n_ids(ad.n_ids)
+            elif o == 'dims':
+                # the dimensions are renamed after parameters were fixed (what a composed model, a hierarchical likelihood
+                # and the problem controller do with the models they are given) and named back: the fixed parameters stay
+                # fixed, by position (their names contain the dimension names)
+                if not ad.renamed and list(cur.names) == list(names0):
+                    tmp = ['renamed dim %d' % (d + 1) for d in range(len(ad.dims))]
+                    cur.obj.set_dim_names(list(tmp))
+                    with case.clause('names_counts'):
+                        wide = ref.pop_names(ad.pop, ad.n_ids, tmp)
+                        case.equal(list(cur.obj.get_parameter_names()), [nm for i, nm in enumerate(wide) if i not in cur.fixed],
+                                   'op %d: names of the free parameters after the dimensions were renamed with %s fixed' % (
+                                       step, [cur.names[i] for i in sorted(cur.fixed)]))
+                    cur.obj.set_dim_names(list(ad.dims))
             elif o == 'set_data':
                 ad.set_data(cur.obj)
                 cur.fixed = _step_model(kind, cur.fixed, op, n)
